@@ -12,4 +12,18 @@ PROPS = {
         "level_note": "Trusted: Lean kernel (axioms propext, Classical.choice, Quot.sound), the gofacts integer-subset translator (cross-checked by correspondence on every run). Recorded deviations of the code from the literal property (distance exactly 2^31; Overlap outside its domain) are in known_findings.json.",
         "technique": "Lean 4 proof over regenerated BitVec translation + differential correspondence",
     },
+    "C15": {
+        "lean_modules": ["NetProto.Props.C15", "NetProto.Props.C15Opts"],
+        "harness": "c15",
+        "thorough_seeds": 2,
+        "rule": "checksum over every buffer length 0..N (all-ones, zero, random content) and a sweep of initial values; ChecksumCombine pairs; encoders of IPv4/TCP/UDP/Ethernet/IPv6/ARP on random old buffers with boundary-biased field values; accessors/IsValid on random and mutated headers; option parsers on structure-aware mutated option strings; encoder->parser round trips. distinct = distinct op lines",
+        "trusted_base": ["hand-written byte-level model of protocol/header (Model/Header.lean), tied by differential correspondence on every run and by offsets_anchor/option_kinds_anchor to the regenerated constants",
+                         "independent RFC decoders (Spec/Rfc.lean) used as oracle"],
+        "assumptions": ["encoding/binary big-endian helpers behave as the model's be16/be32 (checked by correspondence, not proved)",
+                        "accessors are applied to buffers at least as long as the fixed header (callers check IsValid / length first; C07 covers the callers)"],
+        "modelled": ["DNS query builder and ICMP setters are covered by correspondence/oracle only where listed in the distribution; IPv6 and ARP layouts are checked by the oracle on every run but their decode_encode theorems are not proved (omega too slow on the 32-bit or-combination)"],
+        "level_text": "Checksum = RFC 1071 one's-complement sum proved for every byte buffer up to 131070 bytes and every 16-bit initial value (checksum_eq_rfc1071), ChecksumCombine proved equal to end-around-carry addition on the regenerated translation, complement-verifies and even-prefix chaining lemmas (with the odd-prefix counter-witness). Independent RFC decoding of encoder output proved for all field values for IPv4, TCP, UDP, Ethernet (decode_encode, accessors). Option parsers proved never to read outside their input (non-interference with trailing memory) and to invert the encoders for every option sequence (parseSyn_encode, parseTCP_encode). The Go package is run against the model and the RFC oracle on every run.",
+        "level_note": "Trusted: Lean kernel (propext, Classical.choice, Quot.sound), hand model of protocol/header tied by correspondence, constant extractor. IPv6/ARP/ICMP/DNS layouts: oracle + correspondence only.",
+        "technique": "Lean 4 proof over hand model + regenerated constants; differential correspondence and RFC oracle",
+    },
 }
